@@ -134,10 +134,12 @@ def run (ctx):
   g = q.cfg_of(tws)
   fl = [(s_, h, a) for (s_, h, a) in g.loop_nodes if isinstance(s_, ast.For)]
   wl = [(s_, h, a) for (s_, h, a) in g.loop_nodes if isinstance(s_, ast.While)]
-  comps = [n for n in ast.walk(tws.node) if isinstance(n, (ast.ListComp, ast.GeneratorExp)) and any(call_name(c) == '_try_waiter' for c in calls_in(n.elt))]
+  comps = [n for n in ast.walk(tws.node) if isinstance(n, (ast.ListComp, ast.GeneratorExp)) and (any(call_name(c) == '_try_waiter' for c in calls_in(n.elt))
+           or any(call_name(c) == '_try_waiter' for gen_ in n.generators for cond_ in gen_.ifs for c in ([cond_] if isinstance(cond_, ast.Call) else []) + list(calls_in(cond_))))]
   ctx.floor('waiter sweep loops', len(fl) + len(wl) + len(comps), 2)
   for cp in comps:
     it = cp.generators[0].iter
+    if isinstance(it, ast.Name) and q.single_def(tws.node, it.id) is not None: it = q.single_def(tws.node, it.id)
     snap = isinstance(it, ast.Call) and call_name(it) in ('list', 'tuple') or isinstance(it, ast.Subscript)
     ctx.ob('R-ITERMUT', tws, "the sweep iterates a copy of the waiter list", snap, norm(it) if snap else "the sweep iterates `%s` directly while _try_waiter removes entries from it: waiters are skipped" % norm(it), (mod, cp), 'D4')
   for s_, h, a in fl:
